@@ -11,6 +11,7 @@ package main
 
 import (
 	"fmt"
+	"os"
 	"reflect"
 	"strings"
 )
@@ -90,8 +91,9 @@ func firstResult(outs []reflect.Value) (reflect.Value, bool) {
 	return v, false
 }
 
-func runProg(src string) string {
-	vars := env{}
+func runProg(src string) string { return runProgEnv(src, env{}) }
+
+func runProgEnv(src string, vars env) string {
 	stmts := strings.Split(src, ";")
 	for k, st := range stmts {
 		st = strings.TrimSpace(st)
@@ -207,4 +209,154 @@ func init() {
 	}
 	runners["prog"] = func(a []string) string { return runProg(strings.Join(a, "")) }
 	runners["api"] = func(a []string) string { return runProg(strings.Join(a, "")) }
+}
+
+// ---- history / round-trip / ownership ops -------------------------------------------------------
+//   rep <script> <term|prog…;!v>   script over {L,M}: successive Len / MarshalBinary results, then the dump (C13)
+//   rtrip <term|prog…;!v>          marshal; decode the bytes (followed by junk, with spare capacity) into a fresh
+//                                  value of the same kind; marshal again:  "<hex> | <Len2> <hex2> | <dump2>"  (C05, C09)
+//   rtparse <prog…;!v>             the same through openflow13.Parse (top-level messages)
+//   scribble <hex backing> <len>   Parse; observe; overwrite the WHOLE backing array; observe again (C12)
+
+func valueOf(src string) (reflect.Value, string) {
+	if strings.Contains(src, ";!") {
+		i := strings.LastIndex(src, ";!")
+		vars := env{}
+		if out := runStmts(src[:i], vars); out != "" {
+			return reflect.Value{}, out
+		}
+		v, ok := vars[src[i+2:]]
+		if !ok {
+			return reflect.Value{}, "novar"
+		}
+		if v.Kind() != reflect.Ptr {
+			a := reflect.New(v.Type())
+			a.Elem().Set(v)
+			v = a
+		}
+		return v, ""
+	}
+	return buildObj(src, env{}), ""
+}
+
+// runStmts executes the statements of a program (no observation); "" = ok
+func runStmts(src string, vars env) string {
+	out := runProgEnv(src+";!__none__", vars)
+	if out == "novar" {
+		return ""
+	}
+	return out
+}
+
+func marshalOf(p reflect.Value) ([]byte, bool) {
+	m := p.MethodByName("MarshalBinary")
+	if !m.IsValid() {
+		return nil, false
+	}
+	out := m.Call(nil)
+	if !out[1].IsNil() {
+		return nil, false
+	}
+	return out[0].Bytes(), true
+}
+
+func init() {
+	runners["rep"] = func(a []string) string {
+		p, e := valueOf(strings.Join(a[1:], ""))
+		if e != "" {
+			return e
+		}
+		var parts []string
+		for _, c := range a[0] {
+			if c == 'L' {
+				parts = append(parts, "L"+callLen(p))
+			} else {
+				b, ok := marshalOf(p)
+				if !ok {
+					parts = append(parts, "Merr")
+				} else {
+					parts = append(parts, "M"+hx(b))
+				}
+			}
+		}
+		return strings.Join(parts, ",") + " " + dumpV(p)
+	}
+	runners["repx"] = runners["rep"]
+	rt := func(src string, viaParse bool) string {
+		p, e := valueOf(src)
+		if e != "" {
+			return e
+		}
+		b1, ok := marshalOf(p)
+		if !ok {
+			return "err1"
+		}
+		b1 = append([]byte(nil), b1...)
+		// the encoding followed by other bytes, in a larger backing array
+		back := append(append([]byte(nil), b1...), 0xde, 0xad, 0xbe, 0xef, 0x01, 0x02, 0x03, 0x04)
+		var q reflect.Value
+		if viaParse {
+			outs := funcReg["Parse"].Call([]reflect.Value{reflect.ValueOf(back[:len(b1)])})
+			if !outs[1].IsNil() {
+				return hx(b1) + " | perr"
+			}
+			if outs[0].IsNil() {
+				return hx(b1) + " | pnil"
+			}
+			q = outs[0].Elem()
+		} else {
+			q = reflect.New(p.Type().Elem())
+			data := back[:len(b1)]
+			if os.Getenv("OFV_RT_TRAIL") == "1" {
+				data = back
+			}
+			m := q.MethodByName("UnmarshalBinary")
+			if !m.IsValid() {
+				return hx(b1) + " | nounmarshal"
+			}
+			if res := m.Call([]reflect.Value{reflect.ValueOf(data)}); !res[0].IsNil() {
+				return hx(b1) + " | derr"
+			}
+		}
+		l2 := callLen(q)
+		b2, ok := marshalOf(q)
+		if !ok {
+			return hx(b1) + " | " + l2 + " err2"
+		}
+		return hx(b1) + " | " + l2 + " " + hx(b2) + " | " + dumpV(q)
+	}
+	runners["rtrip"] = func(a []string) string { return rt(strings.Join(a, ""), false) }
+	runners["rtx"] = runners["rtrip"]
+	runners["rtparse"] = func(a []string) string { return rt(strings.Join(a, ""), true) }
+	runners["scribble"] = func(a []string) string {
+		data := backing(unhex(a[0]), atoi(a[1]))
+		back := data[:cap(data)]
+		outs := funcReg["Parse"].Call([]reflect.Value{reflect.ValueOf(data)})
+		if !outs[1].IsNil() {
+			return "err"
+		}
+		if outs[0].IsNil() {
+			return "~"
+		}
+		msg := outs[0].Elem()
+		obs := func() string {
+			b, ok := marshalOf(msg)
+			s := dumpV(msg)
+			if ok {
+				s += " " + hx(b)
+			} else {
+				s += " merr"
+			}
+			return s
+		}
+		before := obs()
+		for i := range back {
+			back[i] = ^back[i]
+		}
+		after := obs()
+		if before == after {
+			return "same " + before
+		}
+		return "changed " + before + " -> " + after
+	}
 }
